@@ -164,9 +164,16 @@ func deadHelpers(name string, f *ast.File, b *Batch) []ev.Violation {
 			continue
 		}
 		tracked = true
+		if c.Meta["output_raw"] != nil {
+			return nil // user-written functions may legitimately be unreachable
+		}
+		impl := c.ID + "Impl"
+		if n, ok := c.Meta["impl_name"].(string); ok && n != "" {
+			impl = n // goverter:name
+		}
 		for _, m := range ms {
-			api[key{c.ID + "Impl", m}] = true // struct format
-			api[key{"", m}] = true            // function format
+			api[key{impl, m}] = true // struct format
+			api[key{"", m}] = true   // function format
 		}
 	}
 	if !tracked {
